@@ -1486,8 +1486,10 @@ class Interp:
         k = cur[0]
         if k == "const":
             return True
-        if k in ("binop", "fstr", "idx", "cmp", "not", "bool", "unop"):
+        if k in ("binop", "fstr", "idx", "cmp", "not", "unop"):
             return True
+        if k == "bool":
+            return all(self._rebinding_only(v) for v in cur[2])      # ``a or b`` is one of its operands
         if k == "call" and cur[1] in ("len", "str", "int", ".strip", ".lstrip", ".rstrip", ".replace", ".join", ".format", "re.sub"):
             return True
         if k == "phi":
@@ -1560,6 +1562,52 @@ class Interp:
                 out.add(nm)
         return out
 
+    def _stored_attrs(self, stmts) -> set:
+        """Attribute names that executing ``stmts`` may store: stores in the statements themselves and, transitively, in every
+        repository function or method whose name is called from them (resolution by name: an over-approximation)."""
+        cache = getattr(self, "_stored_cache", None)
+        if cache is None:
+            cache = self._stored_cache = {}
+            self._by_name = {}
+            for fi in self.facts.all_functions():
+                self._by_name.setdefault(fi.name, []).append(fi)
+            for c in self.facts.all_classes():
+                init = c.methods.get("__init__")
+                if init is not None:
+                    self._by_name.setdefault(c.short, []).append(init)
+
+        def direct(nodes):
+            stores, calls = set(), set()
+            for s in nodes:
+                for n in ast.walk(s):
+                    if isinstance(n, ast.Attribute) and isinstance(n.ctx, (ast.Store, ast.Del)):
+                        stores.add(n.attr)
+                    elif isinstance(n, ast.Call):
+                        f = n.func
+                        if isinstance(f, ast.Attribute):
+                            calls.add(f.attr)
+                        elif isinstance(f, ast.Name):
+                            calls.add(f.id)
+                    elif isinstance(n, ast.Attribute) and isinstance(n.ctx, ast.Load):
+                        calls.add(n.attr)       # property reads and bound methods passed as values
+            return stores, calls
+
+        stores, calls = direct(stmts)
+        seen = set()
+        todo = list(calls)
+        while todo:
+            nm = todo.pop()
+            if nm in seen:
+                continue
+            seen.add(nm)
+            for fi in self._by_name.get(nm, ()):
+                if fi.qualname not in cache:
+                    cache[fi.qualname] = direct(fi.node.body)
+                st2, c2 = cache[fi.qualname]
+                stores |= st2
+                todo.extend(c2 - seen)
+        return stores
+
     @staticmethod
     def _assigned_attrs(stmts) -> set:
         out = set()
@@ -1590,11 +1638,15 @@ class Interp:
             if nm in f.env:
                 info["carried_init"][nm] = f.env[nm]
                 f.env[nm] = ("phi", lid, nm)
-        # attribute stores inside the loop body make earlier stores to the same attribute unknown at loop head
+        # attributes the body (or anything it may call) stores are loop-carried state as well: key ('attr', object, name)
+        stored = self._stored_attrs(s.body)
+        attr_keys = []
         for (b, a) in list(f.ext):
-            if a in self._assigned_attrs(s.body):
-                info.setdefault("carried_attr_init", {})[(b, a)] = f.ext[(b, a)]
-                f.ext[(b, a)] = ("phi_attr", lid, b, a)
+            if a in stored:
+                key = ("attr", b, a)
+                info["carried_init"][key] = f.ext[(b, a)]
+                f.ext[(b, a)] = ("phi", lid, key)
+                attr_keys.append((b, a, key))
         sub: list = []
         if kind == "for":
             self.bind_target(f, s.target, ("elem", lid), lid, it)
@@ -1607,8 +1659,15 @@ class Interp:
             for nm in names:
                 if nm in end.env and end.env[nm] != ("phi", lid, nm):
                     info["carried"][nm] = end.env[nm]
+            for b, a, key in attr_keys:
+                v = end.ext.get((b, a))
+                if v is not None and v != ("phi", lid, key):
+                    info["carried"][key] = v
         if out.brk is not None:
             info["break_env"] = {nm: out.brk.env[nm] for nm in sorted(self._assigned_names(s.body)) if nm in out.brk.env}
+            for b, a, key in attr_keys:
+                if (b, a) in out.brk.ext:
+                    info["break_env"][key] = out.brk.ext[(b, a)]
         tree.append(("loop", lid, sub))
         # state after the loop
         after = st
@@ -1626,9 +1685,16 @@ class Interp:
                 after.env[k] = info["carried_init"][k]      # never rebound inside the loop
         last = self._merge_exit(end, out.brk)
         if last is not None:
+            tracked = {(b, a): key for b, a, key in attr_keys}
             for k2, v2 in last.ext.items():
+                key = tracked.get(k2)
+                if key is not None:
+                    changed = key in info["carried"] or info.get("break_env", {}).get(key, ("phi", lid, key)) != ("phi", lid, key)
+                    if changed:
+                        after.ext[k2] = ("loopout", lid, key)
+                    continue        # untouched by the body: keeps its value from before the loop
                 if after.ext.get(k2) != v2:
-                    after.ext[k2] = ("loopout_attr", lid, k2[0], k2[1])
+                    after.ext[k2] = ("loopout", lid, ("attr", k2[0], k2[1]))
         ret = out.ret
         retc = ("loopret", lid) if ret is not None else None
         if s.orelse:
